@@ -73,7 +73,8 @@ func lookSource(lay []lookDecl) string {
 			lines[ln] = strings.Join(parts, " ")
 		}
 	}
-	return "package main\n\n" + strings.Join(lines[1:], "\n") + "\n"
+	// (a comment with multi-byte characters in front: byte offsets and character offsets differ from here on)
+	return "package main // " + strings.Repeat("é日", 40) + "\n\n" + strings.Join(lines[1:], "\n") + "\n"
 }
 
 func checkLookCase(res *Result, lc *lookCase, dir string, idx int) {
